@@ -480,6 +480,11 @@ def instances(tier):
     for v in ('value', 'mu0', 'scale-both'):
         out.append(wmwf_instance(2, 1, v, ref=0))
     out.append(wmwf_instance(2, 2, 'value', ref=1))
+    # reference channel counted from the end (Python convention, as for every other axis / index argument of the library)
+    out.append(wmwf_instance(2, 2, 'value', ref=-1))
+    out.append(wmwf_instance(2, 1, 'mu0', ref=-1))
+    out.append(souden_instance(2, 1, 'value', ref=-1))
+    out.append(souden_instance(2, 2, 'value', ref=-2))
     out.append(wmwf_instance(2, 1, 'csv'))
     out.append(wmwf_instance(2, 2, 'csv-per-bin'))
     if th:
